@@ -180,11 +180,11 @@ def run(tier):
                     chk.inconclusive += 1
                     continue
                 nviol += 1
-                if nviol > 12:      # enough distinct witnesses for one run; the rest is counted
+                if nviol > 6:      # enough distinct witnesses for one run; the rest is counted
                     chk.count("further_failing_executions")
                     continue
                 tag = progcheck.first_diff_tag(exp[0], res.get("out", "")) if cls in ("diff",) else None
-                progcheck.handle_violation(chk, "behaviour", prog, cls, res, O, os.path.join(sc.path, "v%d_%d" % (i, O)), reduce_budget=100)
+                progcheck.handle_violation(chk, "behaviour", prog, cls, res, O, os.path.join(sc.path, "v%d_%d" % (i, O)), reduce_budget=60)
             if i in (0, 1, 2):
                 chk.sample({"generator": gname, "source_head": outs[0][2].get("src", "")[:600], "expected_stdout_head": exp[0][:200], "verdicts": [(O, c) for O, c, _ in outs]})
         chk.extra["cells_covered"] = len([d for d in chk.distinct if isinstance(d, tuple) and d and d[0] == "cell"])
